@@ -51,6 +51,9 @@ struct Typed {
     hs: u8,
     vals: Vec<String>,
     ops: Vec<Op>,
+    /// hs = 11: a header struct with this run-time list of string fields
+    #[serde(default)]
+    dynh: Vec<(String, String)>,
 }
 
 #[derive(Serialize, Deserialize, Clone, Debug, JsonSchema)]
@@ -69,6 +72,9 @@ enum Case {
     /// the same over the wire (one of the live endpoints)
     LiveTyped { ep: u8, c: Typed },
     LiveRedirect { c: Redirect },
+    /// large-scope slice: dimension `dim` pushed to size/count `n` (variant `v`);
+    /// the payload is rebuilt deterministically from these three numbers
+    Large { dim: String, n: usize, v: u8 },
 }
 
 // -------------------------------------------------------- payload family
@@ -177,12 +183,43 @@ struct HBool {
     a: String,
 }
 
+/// a header struct whose fields are chosen at run time: drives to_map through
+/// the same serialize_struct / serialize_field calls a derived struct makes
+struct HDyn(Vec<(String, String)>);
+impl Serialize for HDyn {
+    fn serialize<S: serde::Serializer>(&self, s: S) -> Result<S::Ok, S::Error> {
+        use serde::ser::SerializeStruct;
+        let mut st = s.serialize_struct("HDyn", self.0.len())?;
+        for (k, v) in &self.0 {
+            // serde wants 'static field names
+            let name: &'static str = Box::leak(k.clone().into_boxed_str());
+            st.serialize_field(name, v)?;
+        }
+        st.end()
+    }
+}
+impl JsonSchema for HDyn {
+    fn schema_name() -> String {
+        "HDyn".to_string()
+    }
+    fn json_schema(_g: &mut schemars::gen::SchemaGenerator) -> schemars::schema::Schema {
+        schemars::schema::SchemaObject {
+            instance_type: Some(schemars::schema::InstanceType::Object.into()),
+            ..Default::default()
+        }
+        .into()
+    }
+}
+
 const N_HS: u8 = 11;
 
 /// the declared fields in declaration order: (serde name, Some(string value) | None = not a string)
-fn declared(hs: u8, vals: &[String]) -> Vec<(&'static str, Option<String>)> {
+fn declared(hs: u8, vals: &[String], dynh: &[(String, String)]) -> Vec<(String, Option<String>)> {
     let v = |i: usize| Some(vals.get(i).cloned().unwrap_or_default());
-    match hs {
+    if hs == 11 {
+        return dynh.iter().map(|(k, v)| (k.clone(), Some(v.clone()))).collect();
+    }
+    let d: Vec<(&'static str, Option<String>)> = match hs {
         0 | 10 => vec![],
         1 => vec![("x-one", v(0))],
         2 => vec![("X-Two-B", v(0)), ("x-two-a", v(1))],
@@ -194,7 +231,8 @@ fn declared(hs: u8, vals: &[String]) -> Vec<(&'static str, Option<String>)> {
         8 => vec![("x-foo-mobile", None)],
         9 => vec![("x-flag", None), ("x-one", v(0))],
         _ => panic!("bad header struct"),
-    }
+    };
+    d.into_iter().map(|(k, v)| (k.to_string(), v)).collect()
 }
 
 fn apply_ops(m: &mut http::HeaderMap, ops: &[Op]) {
@@ -225,6 +263,7 @@ fn dispatch_headers<R: HttpCodedResponse>(
     hs: u8,
     vals: &[String],
     ops: &[Op],
+    dynh: &[(String, String)],
 ) -> Result<http::Response<Body>, HttpError> {
     if !wrapped {
         return r.to_result();
@@ -247,6 +286,7 @@ fn dispatch_headers<R: HttpCodedResponse>(
             apply_ops(x.headers_mut(), ops);
             x.to_result()
         }
+        11 => run_h(r, HDyn(dynh.to_vec()), ops),
         _ => panic!("bad header struct"),
     }
 }
@@ -286,9 +326,9 @@ fn typed_json<T: Payload>(rt: &tokio::runtime::Runtime, c: &Typed) -> (Option<Ve
     let ser = serde_json::to_string(&v).ok().map(|s| s.into_bytes());
     let vv = v.clone();
     let res = catch(|| match c.kind {
-        0 => dispatch_headers(HttpResponseOk(vv), c.wrapped, c.hs, &c.vals, &c.ops),
-        1 => dispatch_headers(HttpResponseCreated(vv), c.wrapped, c.hs, &c.vals, &c.ops),
-        2 => dispatch_headers(HttpResponseAccepted(vv), c.wrapped, c.hs, &c.vals, &c.ops),
+        0 => dispatch_headers(HttpResponseOk(vv), c.wrapped, c.hs, &c.vals, &c.ops, &c.dynh),
+        1 => dispatch_headers(HttpResponseCreated(vv), c.wrapped, c.hs, &c.vals, &c.ops, &c.dynh),
+        2 => dispatch_headers(HttpResponseAccepted(vv), c.wrapped, c.hs, &c.vals, &c.ops, &c.dynh),
         _ => panic!("kind/payload mismatch"),
     });
     let obs = match res {
@@ -318,9 +358,9 @@ fn exec_typed_local(rt: &tokio::runtime::Runtime, c: &Typed) -> (Option<Vec<u8>>
             let res = catch(|| {
                 let fb = || FreeformBody(Body::from(b.clone()));
                 match c.kind {
-                    0 => dispatch_headers(HttpResponseOk(fb()), c.wrapped, c.hs, &c.vals, &c.ops),
-                    1 => dispatch_headers(HttpResponseCreated(fb()), c.wrapped, c.hs, &c.vals, &c.ops),
-                    _ => dispatch_headers(HttpResponseAccepted(fb()), c.wrapped, c.hs, &c.vals, &c.ops),
+                    0 => dispatch_headers(HttpResponseOk(fb()), c.wrapped, c.hs, &c.vals, &c.ops, &c.dynh),
+                    1 => dispatch_headers(HttpResponseCreated(fb()), c.wrapped, c.hs, &c.vals, &c.ops, &c.dynh),
+                    _ => dispatch_headers(HttpResponseAccepted(fb()), c.wrapped, c.hs, &c.vals, &c.ops, &c.dynh),
                 }
             });
             let obs = match res {
@@ -337,9 +377,9 @@ fn exec_typed_local(rt: &tokio::runtime::Runtime, c: &Typed) -> (Option<Vec<u8>>
         (3, _) | (4, _) => {
             let res = catch(|| {
                 if c.kind == 3 {
-                    dispatch_headers(HttpResponseDeleted(), c.wrapped, c.hs, &c.vals, &c.ops)
+                    dispatch_headers(HttpResponseDeleted(), c.wrapped, c.hs, &c.vals, &c.ops, &c.dynh)
                 } else {
-                    dispatch_headers(HttpResponseUpdatedNoContent(), c.wrapped, c.hs, &c.vals, &c.ops)
+                    dispatch_headers(HttpResponseUpdatedNoContent(), c.wrapped, c.hs, &c.vals, &c.ops, &c.dynh)
                 }
             });
             let obs = match res {
@@ -358,12 +398,75 @@ fn exec_typed_local(rt: &tokio::runtime::Runtime, c: &Typed) -> (Option<Vec<u8>>
 
 // ---------------------------------------------------------- Gallina output
 
+/// A Gallina term of type str denoting exactly `b`.  Long periodic stretches
+/// are written `srep n unit` (lossless).  Strings above 200 000 bytes (1 MiB
+/// cases of the thorough tier; Coq's evaluator would overflow its stack on the
+/// full list) are replaced by a token: first and last 16 bytes, the length and
+/// a 64-bit FNV-1a hash, plus the first illegal header byte if there is one.
+/// Equal strings get equal tokens and unequal ones different tokens (up to a
+/// hash collision), and a token is a legal header value iff the string is, so
+/// every comparison and legality test the judge makes has the same outcome.
+fn gz(b: &[u8]) -> String {
+    if b.len() > 200_000 {
+        let mut h: u64 = 0xcbf29ce484222325;
+        for &x in b {
+            h ^= x as u64;
+            h = h.wrapping_mul(0x100000001b3);
+        }
+        let mut t = b[..16].to_vec();
+        t.extend_from_slice(format!("#len={}#fnv={:016x}#", b.len(), h).as_bytes());
+        if let Some(&bad) = b.iter().find(|&&x| !(x >= 32 && x != 127 || x == 9)) {
+            t.push(bad);
+        }
+        t.extend_from_slice(&b[b.len() - 16..]);
+        return g_bytes(&t);
+    }
+    if b.len() < 96 {
+        return g_bytes(b);
+    }
+    let mut parts: Vec<String> = vec![];
+    let (mut i, mut lit) = (0usize, 0usize);
+    while i < b.len() {
+        let mut best = (0usize, 0usize);
+        for p in 1..=64.min(b.len() - i) {
+            let mut k = 1;
+            while i + (k + 1) * p <= b.len() && b[i + k * p..i + (k + 1) * p] == b[i..i + p] {
+                k += 1;
+            }
+            if k >= 2 && k * p >= 64 && k * p > best.0 * best.1 {
+                best = (p, k);
+            }
+        }
+        if best.1 > 0 {
+            if lit < i {
+                parts.push(g_bytes(&b[lit..i]));
+            }
+            parts.push(format!("srep {} {}", best.1, g_bytes(&b[i..i + best.0])));
+            i += best.0 * best.1;
+            lit = i;
+        } else {
+            i += 1;
+        }
+    }
+    if lit < b.len() {
+        parts.push(g_bytes(&b[lit..]));
+    }
+    if parts.len() == 1 && parts[0].starts_with('[') {
+        parts.pop().unwrap()
+    } else {
+        format!("({})", parts.join(" ++ "))
+    }
+}
+fn gzs(s: &str) -> String {
+    gz(s.as_bytes())
+}
+
 fn g_hmap(m: &[(Vec<u8>, Vec<Vec<u8>>)]) -> String {
-    g_list(m, |(n, vs)| format!("({},{})", g_bytes(n), g_list(vs, |v| g_bytes(v))))
+    g_list(m, |(n, vs)| format!("({},{})", gz(n), g_list(vs, |v| gz(v))))
 }
 fn g_ops(ops: &[Op]) -> String {
     g_list(ops, |o| {
-        format!("({} {} {})", if o.insert { "HInsert" } else { "HAppend" }, g_bytes(&o.name), g_bytes(&o.value))
+        format!("({} {} {})", if o.insert { "HInsert" } else { "HAppend" }, gz(&o.name), gz(&o.value))
     })
 }
 fn g_tobs(o: &TObs) -> String {
@@ -373,7 +476,7 @@ fn g_tobs(o: &TObs) -> String {
             "(TResp {} {} {} {})",
             status,
             g_hmap(headers),
-            g_bytes(body),
+            gz(body),
             g_bool(*roundtrip)
         ),
         // a panic is no response at all: reported as an impossible status
@@ -387,25 +490,27 @@ fn j_tobs(o: &TObs) -> Value {
         TObs::Resp { status, headers, body, roundtrip } => json!({
             "status": status,
             "headers": headers.iter().map(|(n, vs)| json!([String::from_utf8_lossy(n),
-                vs.iter().map(|v| String::from_utf8_lossy(v).to_string()).collect::<Vec<_>>()])).collect::<Vec<_>>(),
-            "body": String::from_utf8_lossy(body),
+                vs.iter().map(|v| String::from_utf8_lossy(&v[..v.len().min(120)]).to_string()).collect::<Vec<_>>()]))
+                .take(40).collect::<Vec<_>>(),
+            "header_names": headers.len(),
+            "body": String::from_utf8_lossy(&body[..body.len().min(300)]), "body_len": body.len(),
             "roundtrip": roundtrip,
         }),
     }
 }
 
 fn typed_line(group: &'static str, case: Value, c: &Typed, ser: &Option<Vec<u8>>, obs: &TObs) -> Line {
-    let decl = declared(if c.wrapped { c.hs } else { 0 }, &c.vals);
+    let decl = declared(if c.wrapped { c.hs } else { 0 }, &c.vals, &c.dynh);
     let g_decl = g_list(&decl, |(n, v)| match v {
-        Some(s) => format!("({},FStr {})", g_str(n), g_str(s)),
-        None => format!("({},FOther)", g_str(n)),
+        Some(s) => format!("({},FStr {})", gzs(n), gzs(s)),
+        None => format!("({},FOther)", gzs(n)),
     });
     let coq = format!(
         "(CTyped {} {} {} {} {} {} {})",
         c.kind,
         g_bool(c.wrapped),
         g_bool(c.ptype == 7),
-        g_opt(ser, |b| g_bytes(b)),
+        g_opt(ser, |b| gz(b)),
         g_decl,
         g_ops(if c.wrapped { &c.ops } else { &[] }),
         g_tobs(obs)
@@ -433,7 +538,7 @@ fn redirect_line(group: &'static str, case: Value, c: &Redirect, obs: &Result<TO
         Err(s) => format!("(Err {})", s),
         Ok(t) => format!("(Ok {})", g_tobs(t)),
     };
-    let coq = format!("(CRedirect {} {} {} {})", c.kind, g_str(&c.loc), g_ops(&c.ops), o);
+    let coq = format!("(CRedirect {} {} {} {})", c.kind, gzs(&c.loc), g_ops(&c.ops), o);
     let kinds = ["found", "see_other", "temporary_redirect"];
     let tags = vec![
         format!("kind:{}", kinds[(c.kind - 5) as usize]),
@@ -624,7 +729,27 @@ fn op_names(ops: &[Op]) -> Vec<Vec<u8>> {
     ops.iter().map(|o| o.name.to_ascii_lowercase()).collect()
 }
 
-fn live_typed(addr: std::net::SocketAddr, ep: u8, c: &Typed) -> (Option<Vec<u8>>, TObs) {
+/// one request: on the given keep-alive connection, or on a fresh one
+fn send_recv(
+    addr: std::net::SocketAddr,
+    conn: Option<&mut live::Conn>,
+    req: &[u8],
+) -> Result<live::Resp, live::ReadErr> {
+    match conn {
+        None => live::roundtrip(addr, req, false),
+        Some(c) => {
+            c.send(req).map_err(|e| live::ReadErr::Malformed(format!("send: {}", e), vec![]))?;
+            c.read_response(false)
+        }
+    }
+}
+
+fn live_typed(
+    addr: std::net::SocketAddr,
+    conn: Option<&mut live::Conn>,
+    ep: u8,
+    c: &Typed,
+) -> (Option<Vec<u8>>, TObs) {
     let body = serde_json::to_vec(c).unwrap();
     let req = live::request("POST", &format!("/l/{}", ep), &[("content-type", "application/json")], Some(&body));
     let ser: Option<Vec<u8>> = match ep {
@@ -633,8 +758,8 @@ fn live_typed(addr: std::net::SocketAddr, ep: u8, c: &Typed) -> (Option<Vec<u8>>
         2 => serde_json::from_value::<Nums>(c.value.clone()).ok().and_then(|v| serde_json::to_vec(&v).ok()),
         _ => None,
     };
-    let obs = match live::roundtrip(addr, &req, false) {
-        Err(e) => TObs::Panic(format!("{:?}", e)),
+    let obs = match send_recv(addr, conn, &req) {
+        Err(e) => TObs::Panic(format!("{:?}", e).chars().take(300).collect()),
         Ok(r) if r.status >= 400 => TObs::Err(r.status),
         Ok(r) => {
             let roundtrip = match ep {
@@ -652,12 +777,12 @@ fn live_typed(addr: std::net::SocketAddr, ep: u8, c: &Typed) -> (Option<Vec<u8>>
     (ser, obs)
 }
 
-fn live_redirect(addr: std::net::SocketAddr, c: &Redirect) -> Result<TObs, u16> {
+fn live_redirect(addr: std::net::SocketAddr, conn: Option<&mut live::Conn>, c: &Redirect) -> Result<TObs, u16> {
     let body = serde_json::to_vec(c).unwrap();
     let req =
         live::request("POST", &format!("/l/{}", c.kind), &[("content-type", "application/json")], Some(&body));
-    match live::roundtrip(addr, &req, false) {
-        Err(e) => Ok(TObs::Panic(format!("{:?}", e))),
+    match send_recv(addr, conn, &req) {
+        Err(e) => Ok(TObs::Panic(format!("{:?}", e).chars().take(300).collect())),
         Ok(r) if r.status >= 400 => {
             if r.header("x-ctor-refused").is_some() {
                 Err(r.status)
@@ -784,7 +909,7 @@ fn rand_typed(rng: &mut Rng, live_safe: bool) -> Typed {
     };
     let hs = if rng.chance(1, 6) { *rng.pick(&[5u8, 6, 7, 8, 9]) } else { *rng.pick(&[0u8, 1, 1, 2, 2, 3, 3, 4, 10]) };
     let vals = (0..3).map(|_| rand_header_string(rng, live_safe)).collect();
-    Typed { kind, wrapped, ptype, value: rand_value(rng, ptype), hs, vals, ops: rand_ops(rng, live_safe) }
+    Typed { kind, wrapped, ptype, value: rand_value(rng, ptype), hs, vals, ops: rand_ops(rng, live_safe), dynh: vec![] }
 }
 
 /// every byte value a Rust String can contain occurs in some location
@@ -818,11 +943,11 @@ fn gen_cases(opts: &Opts) -> Vec<Case> {
             for hs in 0..N_HS {
                 let vals = vec!["v0".to_string(), "v1".to_string(), "v2".to_string()];
                 cases.push(Case::Typed {
-                    c: Typed { kind, wrapped: true, ptype, value: rand_value(&mut rng, ptype), hs, vals, ops: vec![] },
+                    c: Typed { kind, wrapped: true, ptype, value: rand_value(&mut rng, ptype), hs, vals, ops: vec![], dynh: vec![] },
                 });
             }
             cases.push(Case::Typed {
-                c: Typed { kind, wrapped: false, ptype, value: rand_value(&mut rng, ptype), hs: 0, vals: vec![], ops: vec![] },
+                c: Typed { kind, wrapped: false, ptype, value: rand_value(&mut rng, ptype), hs: 0, vals: vec![], ops: vec![], dynh: vec![] },
             });
         }
     }
@@ -868,50 +993,345 @@ fn gen_cases(opts: &Opts) -> Vec<Case> {
     cases
 }
 
+// ------------------------------------------------------------ large scope
+
+/// the usual round numbers, each with its two neighbours
+const SIZES: &[usize] = &[
+    15, 16, 17, 31, 32, 33, 63, 64, 65, 127, 128, 129, 255, 256, 257, 1023, 1024, 1025, 4095, 4096, 4097, 8191,
+    8192, 8193, 65535, 65536, 65537,
+];
+const MIB: &[usize] = &[1048575, 1048576, 1048577];
+
+/// exactly `n` bytes of text; flavour 0 ASCII, 1/2/3 two-/three-/four-byte
+/// characters after n mod width ASCII bytes (so that with n = 257 or 4097 a
+/// character straddles the 255|256 resp. 4095|4096 byte boundary)
+fn text(n: usize, flavour: u8) -> String {
+    let (w, ch) = match flavour % 4 {
+        0 => (1, 'a'),
+        1 => (2, '\u{e9}'),
+        2 => (3, '\u{65e5}'),
+        _ => (4, '\u{1F600}'),
+    };
+    let mut s = "a".repeat(n % w);
+    for _ in 0..n / w {
+        s.push(ch);
+    }
+    s
+}
+
+/// the i-th of many header names: the index with its digits reversed comes
+/// first, so that two names differ early (the model compares names in an
+/// association list; a long common prefix only costs evaluation time)
+fn hname(i: usize, tag: &str) -> String {
+    let rev: String = format!("{:05}", i).chars().rev().collect();
+    format!("{}-{}", rev, tag)
+}
+
+fn nested_depth(d: usize) -> Value {
+    let mut v = json!({"name": "", "tags": [], "child": null, "kind": "Unit", "opt": null});
+    for _ in 1..d {
+        v = json!({"name": "", "tags": [], "child": v, "kind": "Unit", "opt": null});
+    }
+    v
+}
+
+fn base_typed(kind: u8) -> Typed {
+    Typed {
+        kind,
+        wrapped: true,
+        ptype: if kind <= 2 { 0 } else { 4 },
+        value: if kind <= 2 { json!("v") } else { Value::Null },
+        hs: 1,
+        vals: vec!["v0".into(), "v1".into(), "v2".into()],
+        ops: vec![],
+        dynh: vec![],
+    }
+}
+
+/// The cases a large-scope descriptor stands for; `true`: run them all on one
+/// keep-alive connection.
+fn build_large(dim: &str, n: usize, v: u8) -> (Vec<Case>, bool) {
+    let kind3 = v % 3; // a JSON kind
+    let kind5 = v % 5; // any kind
+    let one = |c: Case| (vec![c], false);
+    match dim {
+        // ---- body size, every typed kind with a body
+        "body-string" => {
+            let mut c = base_typed(kind3);
+            c.wrapped = v % 2 == 0;
+            c.hs = 0;
+            c.value = json!(text(n, v / 3));
+            one(Case::Typed { c })
+        }
+        "body-array" => {
+            let mut c = base_typed(kind3);
+            c.ptype = 3;
+            c.value = Value::Array((0..n).map(|i| if i % 2 == 0 { json!("") } else { Value::Null }).collect());
+            one(Case::Typed { c })
+        }
+        "body-freeform" => {
+            let mut c = base_typed(kind3);
+            c.ptype = 7;
+            c.value = json!(vec![0xa5u8; n]);
+            one(Case::Typed { c })
+        }
+        "body-depth" => {
+            let mut c = base_typed(kind3);
+            c.ptype = 2;
+            c.value = nested_depth(n);
+            one(Case::Typed { c })
+        }
+        // ---- header counts
+        "declared-headers" => {
+            let mut c = base_typed(kind5);
+            c.hs = 11;
+            c.dynh = (0..n).map(|i| (hname(i, "XD"), format!("d{}", i))).collect();
+            // explicit ones that override declared ones at both ends
+            c.ops = vec![
+                Op { insert: true, name: hname(0, "xd").into_bytes(), value: b"first".to_vec() },
+                Op { insert: false, name: hname(n - 1, "Xd").into_bytes(), value: b"last".to_vec() },
+            ];
+            one(Case::Typed { c })
+        }
+        "explicit-headers" => {
+            let mut c = base_typed(kind5);
+            c.hs = 2;
+            c.ops = (0..n)
+                .map(|i| Op {
+                    insert: i % 2 == 0,
+                    name: if i == n / 2 { b"X-TWO-A".to_vec() } else { hname(i, "xe").into_bytes() },
+                    value: format!("e{}", i).into_bytes(),
+                })
+                .collect();
+            one(Case::Typed { c })
+        }
+        "explicit-values" => {
+            // n values under one declared name
+            let mut c = base_typed(kind5);
+            c.ops = (0..n).map(|i| Op { insert: false, name: b"X-One".to_vec(), value: format!("{}", i).into_bytes() }).collect();
+            one(Case::Typed { c })
+        }
+        // ---- header value lengths
+        "declared-value-len" => {
+            let mut c = base_typed(kind5);
+            c.vals[0] = text(n, v / 5);
+            one(Case::Typed { c })
+        }
+        "explicit-value-len" => {
+            let mut c = base_typed(kind5);
+            c.ops = vec![Op { insert: v % 2 == 0, name: b"x-long".to_vec(), value: text(n, v / 5).into_bytes() }];
+            one(Case::Typed { c })
+        }
+        "location-len" => one(Case::Redirect {
+            c: Redirect { kind: 5 + v % 3, loc: format!("/{}", text(n - 1, v / 3)), ops: vec![] },
+        }),
+        "location-len-illegal" => {
+            // one control byte at the very end of a long location
+            one(Case::Redirect {
+                c: Redirect { kind: 5 + v % 3, loc: format!("{}\n", text(n - 1, 0)), ops: vec![] },
+            })
+        }
+        // ---- the same over the wire
+        "live-body-string" => {
+            let mut c = base_typed(1);
+            c.value = json!(text(n, v));
+            one(Case::LiveTyped { ep: 1, c: normalise_live(1, &c) })
+        }
+        "live-body-depth" => {
+            let mut c = base_typed(0);
+            c.value = nested_depth(n);
+            one(Case::LiveTyped { ep: 0, c: normalise_live(0, &c) })
+        }
+        "live-declared-value-len" => {
+            let mut c = base_typed(2);
+            c.value = json!({"a": 1, "b": -1, "c": null, "d": 0});
+            c.vals[0] = text(n, v);
+            one(Case::LiveTyped { ep: 2, c: normalise_live(2, &c) })
+        }
+        "live-explicit-headers" => {
+            let mut c = base_typed(3);
+            c.ops = (0..n)
+                .map(|i| Op { insert: i % 2 == 0, name: hname(i, "xe").into_bytes(), value: format!("e{}", i).into_bytes() })
+                .collect();
+            one(Case::LiveTyped { ep: 3, c: normalise_live(3, &c) })
+        }
+        "live-location-len" => one(Case::LiveRedirect {
+            c: Redirect { kind: 5 + v % 3, loc: format!("/{}", text(n - 1, v / 3)), ops: vec![] },
+        }),
+        // ---- n responses on one keep-alive connection
+        "live-keepalive" => {
+            let cases = (0..n)
+                .map(|i| match i % 4 {
+                    0 => {
+                        let mut c = base_typed(1);
+                        c.value = json!(format!("response {}", i));
+                        Case::LiveTyped { ep: 1, c: normalise_live(1, &c) }
+                    }
+                    1 => Case::LiveTyped { ep: 4, c: normalise_live(4, &base_typed(4)) },
+                    2 => {
+                        let mut c = base_typed(3);
+                        c.vals = vec![format!("b{}", i), format!("a{}", i)];
+                        Case::LiveTyped { ep: 3, c: normalise_live(3, &c) }
+                    }
+                    _ => Case::LiveRedirect { c: Redirect { kind: 5 + (i % 3) as u8, loc: format!("/next/{}", i), ops: vec![] } },
+                })
+                .collect();
+            (cases, true)
+        }
+        _ => panic!("unknown large dimension {}", dim),
+    }
+}
+
+fn gen_large(opts: &Opts) -> Vec<Case> {
+    let mut out = vec![];
+    let t = opts.thorough;
+    let mut push = |dim: &str, n: usize, v: usize| out.push(Case::Large { dim: dim.to_string(), n, v: (v % 250) as u8 });
+    // byte lengths: every round number for every dimension
+    let lens: Vec<usize> = SIZES.iter().cloned().chain(if t { MIB.to_vec() } else { vec![] }).collect();
+    for (i, &n) in lens.iter().enumerate() {
+        push("body-string", n, i);
+        push("body-freeform", n, i);
+        push("body-array", n, i);
+        push("declared-value-len", n, i);
+        push("explicit-value-len", n, i);
+        push("location-len", n, i);
+        push("live-body-string", n, i);
+        push("live-declared-value-len", n, i);
+        push("live-location-len", n, i);
+    }
+    for (i, &n) in [255usize, 256, 257, 4096, 65536].iter().enumerate() {
+        push("location-len-illegal", n, i);
+    }
+    // multi-byte text straddling the boundaries, every JSON kind
+    for fl in 1..4usize {
+        for (i, &n) in [257usize, 4097, 65537].iter().enumerate() {
+            push("body-string", n, fl * 3 + i % 3);
+            push("live-body-string", n, fl);
+        }
+    }
+    // nesting depth (serde_json's own reader stops at depth 128: stay below)
+    for (i, &n) in SIZES.iter().filter(|&&n| n <= 65).enumerate() {
+        push("body-depth", n, i);
+        push("live-body-depth", n, i);
+    }
+    // header counts.  The model's header map is an association list, so one
+    // case costs Coq time quadratic in the count (about 5 s at 1024, 90 s at
+    // 4096): every round number up to 257 (thorough: 1025) for every
+    // dimension, and one of each larger triple per dimension
+    let call = if t { 1025 } else { 257 };
+    let extra: &[usize] = if t { &[4095, 4096, 4097] } else { &[1023, 1024, 1025] };
+    for (d, dim) in ["declared-headers", "explicit-headers", "live-explicit-headers"].iter().enumerate() {
+        for (i, &n) in SIZES.iter().filter(|&&n| n <= call).enumerate() {
+            push(dim, n, i);
+        }
+        // quick: a single case beyond 257 names (declared-headers:1024)
+        if t || d == 0 {
+            push(dim, extra[if t { d } else { 1 }], d);
+        }
+    }
+    // values under one name (quadratic too, but with a small constant)
+    let vmax = if t { 8193 } else { 1025 };
+    for (i, &n) in SIZES.iter().filter(|&&n| n <= vmax).enumerate() {
+        push("explicit-values", n, i);
+    }
+    push("live-keepalive", if t { 8200 } else { 1030 }, 0);
+    out
+}
+
 fn main() {
     dsverif::cli::main(|opts, replay, out| {
         let rt = live::rt();
         let cases: Vec<Case> = match replay {
             Some(vs) => vs.into_iter().map(|v| serde_json::from_value(v).expect("c12 case")).collect(),
-            None => gen_cases(opts),
+            None => {
+                // the large cases are spread evenly through the list: the
+                // driver evaluates contiguous blocks of lines in parallel
+                let ordinary = gen_cases(opts);
+                let mut large = gen_large(opts);
+                // the expensive ones (generated last) must not sit together
+                Rng::new(opts.seed ^ 0x1a46e).shuffle(&mut large);
+                let step = (ordinary.len() / (large.len() + 1)).max(1);
+                let mut c = Vec::with_capacity(ordinary.len() + large.len());
+                let mut li = large.into_iter();
+                for (i, oc) in ordinary.into_iter().enumerate() {
+                    if i % step == step - 1 {
+                        if let Some(l) = li.next() {
+                            c.push(l);
+                        }
+                    }
+                    c.push(oc);
+                }
+                c.extend(li);
+                c
+            }
         };
         let mut server: Option<(dropshot::HttpServer<()>, std::net::SocketAddr)> = None;
         for case in &cases {
             let cj = serde_json::to_value(case).unwrap();
-            match case {
-                Case::Typed { c } => {
-                    let (ser, obs) = exec_typed_local(&rt, c);
-                    emit(out, &typed_line("typed", cj, c, &ser, &obs));
+            // a large-scope descriptor stands for one or more ordinary cases,
+            // judged exactly like them
+            let (inner, keepalive, extra): (Vec<Case>, bool, Vec<String>) = match case {
+                Case::Large { dim, n, v } => {
+                    let (cs, ka) = build_large(dim, *n, *v);
+                    (cs, ka, vec![format!("large:{}:{}", dim, n)])
                 }
-                Case::Redirect { c } => {
-                    let obs = exec_redirect_local(&rt, c);
-                    emit(out, &redirect_line("redirect", cj, c, &obs));
-                }
-                Case::LiveTyped { .. } | Case::LiveRedirect { .. } => {
-                    if server.is_none() {
-                        let _g = rt.enter();
-                        let s = live::start_server(
-                            api(),
-                            (),
-                            live::ServerOpts { default_request_body_max_bytes: 1 << 20, ..Default::default() },
-                        );
-                        let a = s.local_addr();
-                        server = Some((s, a));
+                other => (vec![other.clone()], false, vec![]),
+            };
+            let mut conn: Option<live::Conn> = None;
+            for (idx, ic) in inner.iter().enumerate() {
+                let mut line = match ic {
+                    Case::Typed { c } => {
+                        let (ser, obs) = exec_typed_local(&rt, c);
+                        typed_line("typed", cj.clone(), c, &ser, &obs)
                     }
-                    let addr = server.as_ref().unwrap().1;
-                    match case {
-                        Case::LiveTyped { ep, c } => {
-                            let c = normalise_live(*ep, c);
-                            let (ser, obs) = live_typed(addr, *ep, &c);
-                            emit(out, &typed_line("live-typed", cj, &c, &ser, &obs));
-                        }
-                        Case::LiveRedirect { c } => {
-                            let obs = live_redirect(addr, c);
-                            emit(out, &redirect_line("live-redirect", cj, c, &obs));
-                        }
-                        _ => unreachable!(),
+                    Case::Redirect { c } => {
+                        let obs = exec_redirect_local(&rt, c);
+                        redirect_line("redirect", cj.clone(), c, &obs)
                     }
+                    Case::LiveTyped { .. } | Case::LiveRedirect { .. } => {
+                        if server.is_none() {
+                            let _g = rt.enter();
+                            let s = live::start_server(
+                                api(),
+                                (),
+                                live::ServerOpts { default_request_body_max_bytes: 16 << 20, ..Default::default() },
+                            );
+                            let a = s.local_addr();
+                            server = Some((s, a));
+                        }
+                        let addr = server.as_ref().unwrap().1;
+                        if keepalive && conn.is_none() {
+                            conn = live::Conn::open(addr).ok();
+                        }
+                        let l = match ic {
+                            Case::LiveTyped { ep, c } => {
+                                let c = normalise_live(*ep, c);
+                                let (ser, obs) = live_typed(addr, conn.as_mut(), *ep, &c);
+                                typed_line("live-typed", cj.clone(), &c, &ser, &obs)
+                            }
+                            Case::LiveRedirect { c } => {
+                                let obs = live_redirect(addr, conn.as_mut(), c);
+                                redirect_line("live-redirect", cj.clone(), c, &obs)
+                            }
+                            _ => unreachable!(),
+                        };
+                        if keepalive && l.tags.iter().any(|t| t == "obs:panic") {
+                            // the connection is gone: the remaining requests get a new one
+                            conn = None;
+                        }
+                        l
+                    }
+                    Case::Large { .. } => unreachable!(),
+                };
+                if !extra.is_empty() {
+                    line.tags.extend(extra.iter().cloned());
+                    if keepalive {
+                        // the position on the connection, by power-of-two bucket
+                        line.tags.push(format!("large:keepalive-position:<{}", (idx + 1).next_power_of_two()));
+                    }
+                    line.group = if line.group.starts_with("live") { "large-live" } else { "large" };
                 }
+                emit(out, &line);
             }
         }
     })
